@@ -78,7 +78,10 @@ func (in *Interp) argInt(v Value) int {
 }
 
 func (in *Interp) symBytes(name string, n int, kind string) []*Term {
-	name = in.freshName(name)
+	return in.symBytesNamed(in.freshName(name), n, kind)
+}
+
+func (in *Interp) symBytesNamed(name string, n int, kind string) []*Term {
 	bs := make([]*Term, n)
 	for i := range bs {
 		bs[i] = in.tt.Var(fmt.Sprintf("%s[%d]", name, i), BVSort(8))
@@ -106,9 +109,9 @@ func init() {
 	sx("BytesRange", func(in *Interp, fr *frame, a []Value, _ *ssa.CallCommon) Value {
 		lo, hi := in.argInt(a[1]), in.argInt(a[2])
 		c := in.decideN(hi-lo+1, "len")
-		name := argStr(a[0])
+		name := in.freshName(argStr(a[0]))
 		in.concInput(name+"#len", int64(lo+c))
-		return in.mkByteSlice(in.symBytes(name, lo+c, "bytes"))
+		return in.mkByteSlice(in.symBytesNamed(name, lo+c, "bytes"))
 	})
 	sx("Str", func(in *Interp, fr *frame, a []Value, _ *ssa.CallCommon) Value {
 		return in.mkStr(in.symBytes(argStr(a[0]), in.argInt(a[1]), "str"))
@@ -359,6 +362,31 @@ func init() {
 	reg("internal/abi.NoEscape", func(in *Interp, fr *frame, a []Value, _ *ssa.CallCommon) Value { return a[0] })
 	reg("internal/abi.FuncPCABIInternal", func(in *Interp, fr *frame, a []Value, _ *ssa.CallCommon) Value { return in.mkU64(0) })
 	reg("internal/abi.FuncPCABI0", func(in *Interp, fr *frame, a []Value, _ *ssa.CallCommon) Value { return in.mkU64(0) })
+
+	// sort.Slice / SliceStable: insertion sort driven by the less closure (stable)
+	sortSlice := func(in *Interp, fr *frame, a []Value, _ *ssa.CallCommon) Value {
+		iv := a[0].(Iface)
+		s, ok := iv.v.(Slice)
+		if !ok {
+			panic(unsupported{"sort.Slice on non-slice"})
+		}
+		es := in.sliceElems(s)
+		less := func(i, j int) bool {
+			r := in.call(fr, a[1], []Value{in.mkInt(int64(i)), in.mkInt(int64(j))}, nil)
+			return in.branch(r.(*Term))
+		}
+		for i := 1; i < len(es); i++ {
+			for j := i; j > 0 && less(j, j-1); j-- {
+				pj, pk := (&Ptr{obj: s.arr}).sub(s.off+j), (&Ptr{obj: s.arr}).sub(s.off+j-1)
+				x, y := in.load(pj), in.load(pk)
+				in.store(pj, y)
+				in.store(pk, x)
+			}
+		}
+		return nil
+	}
+	reg("sort.Slice", sortSlice)
+	reg("sort.SliceStable", sortSlice)
 
 	// ---- sync: single-threaded, locks are no-ops
 	for _, p := range []string{"(*sync.Mutex).", "(*sync.RWMutex).", "(*sync.WaitGroup).", "(*sync.Cond)."} {
